@@ -14,6 +14,11 @@ func FloatValueApprox(fraction, margin float64) Value {
 			return false, false
 		}
 		fx, fy := x.Float(), y.Float()
+		if fx == fy || (math.IsNaN(fx) && math.IsNaN(fy)) {
+			// equal values are always within tolerance, including infinities whose difference is NaN.
+			// NaN is equal to NaN like in proto.Equal
+			return true, true
+		}
 		relMarg := fraction * math.Min(math.Abs(fx), math.Abs(fy))
 		return math.Abs(fx-fy) <= math.Max(margin, relMarg), true
 	}
